@@ -9,11 +9,16 @@
    closed node loops of either orientation.  sigma = +-1 is the z-component of the plane
    normal, t the temporary cell centre (ANY point in the identities below).
 
-   NOT in this development: any 3-D statement (C19_3d_normals_sum_zero is not proved; 3-D is
-   covered by the oracle), the legacy convex fallback branch, embedded grids. *)
+   3-D (Model.C19_3d, transcription of _compute_geometry_3d for planar faces): a cell is a list
+   of (node loop, cell_faces sign); [watertight]: every directed edge of the oriented faces
+   occurs as often as its reverse; [star_faces]: every sub-triangle is oriented like its face;
+   [planar_star ps]: all sub-normals are parallel to and oriented like the face normal.
+
+   NOT in this development: the 3-D centroid identity, non-planar (twisted) 3-D faces, the
+   legacy convex fallback branch of the 2-D code, embedded 1-D/2-D grids. *)
 From Coq Require Import List ZArith QArith Qabs Bool Arith Permutation.
 Import ListNotations.
-From PP Require Import Model.C19 Proofs.C19.
+From PP Require Import Model.C19 Proofs.C19 Model.C19_3d Proofs.C19_3d.
 Open Scope Q_scope.
 
 (* The model's orientation check implies the hypotheses of the cell theorems, for every cell. *)
@@ -135,6 +140,100 @@ Theorem C19_1d_output :
                     then - tangent1 h else tangent1 h.
 Proof. exact output_1d. Qed.
 Print Assumptions C19_1d_output.
+
+(* ---------------------------------------------------------------------------------------- *)
+(* 3-D *)
+
+(* The face normal (sum of the sub-triangle normals around ANY centre c) is the vector area
+   1/2 sum p_i x p_{i+1} of the node loop. *)
+Theorem C19_3d_face_normal_is_vector_area :
+  forall c ps, veq (face_normal_c c ps) (vector_area ps).
+Proof. exact face_normal_vector_area. Qed.
+Print Assumptions C19_3d_face_normal_is_vector_area.
+
+(* Signed face normals of a watertight cell sum to zero (any polygonal faces, planar or not). *)
+Theorem C19_3d_normals_sum_zero :
+  forall fs, signs3_ok fs -> watertight fs ->
+    sumQ (map (fun f => inject_Z (snd f) * vx (face_normal (fst f))) fs) == 0 /\
+    sumQ (map (fun f => inject_Z (snd f) * vy (face_normal (fst f))) fs) == 0 /\
+    sumQ (map (fun f => inject_Z (snd f) * vz (face_normal (fst f))) fs) == 0.
+Proof. exact normals_sum_zero_3d. Qed.
+Print Assumptions C19_3d_normals_sum_zero.
+
+(* The computed cell volume (sum of the sub-tetrahedra around the temporary centre) does not
+   depend on the temporary centre. *)
+Theorem C19_3d_volume_independent_of_centre :
+  forall fs t0 t1, signs3_ok fs -> watertight fs -> star_faces fs ->
+    cell_volume3 t0 (cell_ts fs) == cell_volume3 t1 (cell_ts fs).
+Proof. exact volume_indep_cell. Qed.
+Print Assumptions C19_3d_volume_independent_of_centre.
+
+(* Gauss with the code's face centres: sum +- x_f . n_f = 3 |K| (planar faces). *)
+Theorem C19_3d_gauss :
+  forall fs t0, signs3_ok fs -> watertight fs -> star_faces fs ->
+    (forall f, In f fs -> planar_star (fst f)) ->
+    sumQ (map (fun f => inject_Z (snd f) * vdot (face_center (fst f)) (face_normal (fst f))) fs)
+    == 3 * cell_volume3 t0 (cell_ts fs).
+Proof. exact gauss_3d. Qed.
+Print Assumptions C19_3d_gauss.
+
+(* The executable check the tie evaluates on every cell of every real 3-D grid implies the
+   hypotheses above for that cell of the model. *)
+Theorem C19_3d_hypotheses_checker_sound :
+  forall g c, cell_hyps_b g c = true ->
+    signs3_ok (cell_cfaces g c) /\ watertight (cell_cfaces g c) /\ star_faces (cell_cfaces g c) /\
+    (forall f, In f (cell_cfaces g c) -> planar_star (fst f)).
+Proof. exact cell_hyps_b_sound. Qed.
+Print Assumptions C19_3d_hypotheses_checker_sound.
+
+(* Hence, for every cell of the model that passes the check: normals sum to zero, the volume
+   is independent of the temporary centre, and Gauss holds. *)
+Theorem C19_3d_cell :
+  forall g c, cell_hyps_b g c = true ->
+    let fs := cell_cfaces g c in
+    (sumQ (map (fun f => inject_Z (snd f) * vx (face_normal (fst f))) fs) == 0 /\
+     sumQ (map (fun f => inject_Z (snd f) * vy (face_normal (fst f))) fs) == 0 /\
+     sumQ (map (fun f => inject_Z (snd f) * vz (face_normal (fst f))) fs) == 0) /\
+    (forall t0 t1, cell_volume3 t0 (cell_subtris g c) == cell_volume3 t1 (cell_subtris g c)) /\
+    (forall t0, sumQ (map (fun f => inject_Z (snd f) * vdot (face_center (fst f)) (face_normal (fst f))) fs)
+                == 3 * cell_volume3 t0 (cell_subtris g c)).
+Proof. exact cell_theorem_3d. Qed.
+Print Assumptions C19_3d_cell.
+
+(* What geometry3 returns when it does not raise: the maps of the per-face / per-cell formulas,
+   and no sub-tetrahedron volume at or below -1e-12 (the code's ValueError branch). *)
+Theorem C19_3d_output :
+  forall g r, geometry3 g = G3Ok r ->
+    let fs := map (face_pts g) (seq 0 (length (k_faces g))) in
+    let cells := map (cell_subtris g) (seq 0 (k_nc g)) in
+    q_fn r = map face_normal fs /\ q_fc r = map face_center fs /\ q_area2 r = map face_area2 fs /\
+    q_vol r = map (fun ts => cell_volume3 (tmp_center ts) ts) cells /\
+    q_cc r = map (fun ts => cell_center3 (tmp_center ts) ts) cells /\
+    (forall ts t, In ts cells -> In t ts -> - (1 # 1000000000000) < tet_volume (tmp_center ts) t).
+Proof. exact geometry3_ok. Qed.
+Print Assumptions C19_3d_output.
+
+(* Non-vacuity (3-D): the unit tetrahedron passes the check; its computed volume is 1/6. *)
+Example C19_3d_nonvacuous :
+  let g := {| k_nodes := [(0, 0, 0); (1, 0, 0); (0, 1, 0); (0, 0, 1)];
+              k_faces := [[0; 1; 2]; [0; 1; 3]; [0; 2; 3]; [1; 2; 3]]%nat;
+              k_cf := [(0%nat, 0%nat, (-1)%Z); (1%nat, 0%nat, 1%Z); (2%nat, 0%nat, (-1)%Z);
+                       (3%nat, 0%nat, 1%Z)];
+              k_nc := 1%nat |} in
+  cell_hyps_b g 0%nat = true /\
+  (exists r, geometry3 g = G3Ok r /\ all2 (closeS 0) (q_vol r) [1 # 6] = true) /\
+  watertight (cell_cfaces g 0%nat).
+Proof.
+  cbn zeta.
+  assert (cell_hyps_b {| k_nodes := [(0, 0, 0); (1, 0, 0); (0, 1, 0); (0, 0, 1)];
+              k_faces := [[0; 1; 2]; [0; 1; 3]; [0; 2; 3]; [1; 2; 3]]%nat;
+              k_cf := [(0%nat, 0%nat, (-1)%Z); (1%nat, 0%nat, 1%Z); (2%nat, 0%nat, (-1)%Z);
+                       (3%nat, 0%nat, 1%Z)];
+              k_nc := 1%nat |} 0%nat = true) as H by (vm_compute; reflexivity).
+  split; [exact H|]. split.
+  - eexists. split; vm_compute; reflexivity.
+  - apply cell_hyps_b_sound in H. tauto.
+Qed.
 
 (* Non-vacuity: the unit square with node order as in pp.CartGrid([1, 1]) (faces: left, right
    (vertical, upwards), bottom, top (horizontal, leftwards); signs -1, +1, -1, +1) passes the
